@@ -7,12 +7,7 @@ open Lean Go Vuego
 
 def cfgNow : ReflectCfg := Generated.reflectCfg
 
-/-- `toMapData` (vue.go) -/
-def toMapData (v : Val) : Scope :=
-  match v with
-  | .nil => []
-  | .map .anyMap kvs => kvs
-  | _ => match structToMap structDepth v with | .map _ kvs => kvs | _ => []
+def toMapData (v : Val) : Scope := Vuego.toMapData cfgNow v
 
 def scopeOfJson (j : Json) : Scope :=
   (jarr j).foldl (fun acc e => match jarr e with | [k, v] => Scope.set acc (jstr k) (valOfJson v) | _ => acc) []
